@@ -599,14 +599,14 @@ def exec_history(trace: Dict[str, Any]) -> Dict[str, Any]:
                     return prgm.evaluate(activation)
 
             # "Also when the evaluation fails": the abort is injected at an arbitrary line *inside
-            # the evaluation* (a frame of celpy/evaluation.py or of transpiled code is on the
-            # stack) or inside a helper called directly.  An abort inside the code that installs /
+            # the evaluation* (a frame of celpy/evaluation.py -- the evaluator, or Transpiler.evaluate
+            # above the transpiled code -- is on the stack) or inside a helper called directly.  An abort inside the code that installs /
             # clears the context is not the evaluation failing -- no code can promise cleanup when
             # the cleanup itself is killed -- so such a point is skipped (the abort fires later).
             tracer = LineTracer(abort_at=op.get("abort"),
                                 no_abort_in=("C7NContext.__enter__", "C7NContext.__exit__"),
-                                abort_only_under=(("celpy/evaluation.py", "<string>")
-                                                  if mode != "direct" else ()))
+                                abort_only_under=(("celpy/evaluation.py",) if mode != "direct"
+                                                  else ("sim/c17.py::direct_call",)))
             try:
                 with tracer:
                     fp, _ = kit.outcome(run)
